@@ -72,9 +72,9 @@ claim('C10', 'proof', K1 + '; ' + BD,
 claim('C11', 'proof', K2 + '; ' + K1 + '; ' + BD,
       'K2: debuglink (padding lambda proved), debugsup, debugaltlink structs; K1 (all inputs): Section.__init__/Section.data (gABI compression: header, declared-size check, zlib) ; bounded differential: one generated payload stored plainly, SHF_COMPRESSED (levels 1/6/9, partial), in the legacy .zdebug framing and behind a gnu_debuglink with right/wrong checksum, both classes and byte orders: identical units/entries/section contents, presence reporting, rejection of a wrong checksum and of a wrong declared size',
       'get_dwarf_info / _read_dwarf_section / _decompress_dwarf_section / _file_crc32 are NOT under K1 contract (19-section loop, streaming zlib): covered by the bounded differential only; supplementary-file links not exercised; zlib assumed; Sem of construct node kinds assumed')
-claim('C12', 'proof', K2 + '; ' + BD,
+claim('C12', 'proof', K1 + '; ' + K2 + '; ' + BD,
       'dispatch table of the expression parser: for every DW_OP code the registered parser reads exactly the operand kinds DWARF v5 7.7.1 / GNU extensions prescribe (closure analysis of the real table + replay of each parser on concrete operands); the name map is the inverse of the code map',
-      'parse_expr loop itself (offset bookkeeping, caching) is covered by a bounded sample of expressions; wasm/GNU entry-value nesting sampled')
+      'the parse loop (DWARFExprParser.parse_expr: opcode, offset and operand bookkeeping, whole string consumed) is K1-proved for every byte string over ABSTRACT operand parsers (end/args functions of bytes, position, opcode); what each real table entry reads is the K2 conformance obligation per opcode; nested entry-value expressions and the composition of the two are covered by the bounded sample')
 
 claim('C19', 'proof', K1 + '; bounded fault injection (labelled bounded, never counted as proved)',
       'K1 (all byte strings): ELFFile.__init__ either returns -- with the header decoded at offset 0 in the class and byte order e_ident announces and the invariants the other contracts assume -- or raises ELFError (ELFParseError is a subclass): every path of the real constructor, _identify_file, header fetch, extended string-table index and the compressed string-table header is explored; termination with an iteration bound linear in the file size is proved by loop variants for the dynamic tag walk, note walk, version-record chains, GNU/SysV hash symbol counts, RELR expansion and the section/segment/symbol enumerations under contract',
